@@ -65,18 +65,14 @@ func c27(c *Ctx) {
 			c.MustFact(st, "announced-only-with-a-compressor-name", Cmp(FieldLoad(fSC), token.NEQ, ConstStr("")))
 			okV := false
 			for _, sv := range storesToField(f, fV) {
-				if sv.Block() == st.Block() && FieldLoad(fSC)(sv.Val) && sv.Addr.(*ssa.FieldAddr).X == st.Addr.(*ssa.FieldAddr).X {
+				if together(sv, st) && FieldLoad(fSC)(sv.Val) && sv.Addr.(*ssa.FieldAddr).X == st.Addr.(*ssa.FieldAddr).X {
 					okV = true
 				}
 			}
 			c.Expect(okV, st, f, "announces-the-call-header's-compressor", "grpc-encoding does not carry the call header's compressor name")
 			// skipped only when no compressor is named
-			for _, p := range st.Block().Preds {
-				for _, su := range p.Succs {
-					if su != st.Block() {
-						c.EnteredOnlyWhenExcept(su, "omitted-only-without-a-compressor-name", func(q *ssa.BasicBlock) bool { return q != p }, Cmp(FieldLoad(fSC), token.EQL, ConstStr("")))
-					}
-				}
+			if d, other := decidingBranch(st.Block()); c.Expect(d != nil, st, f, "grpc-encoding-conditional", "the grpc-encoding field is not written under a test") {
+				c.EnteredOnlyWhenFrom(other, "omitted-only-without-a-compressor-name", d, Cmp(FieldLoad(fSC), token.EQL, ConstStr("")))
 			}
 		}
 		c.Expect(n == 1, nil, f, "one-grpc-encoding-field", "expected exactly one grpc-encoding header field site")
@@ -97,7 +93,7 @@ func c27(c *Ctx) {
 				c.Expect(CallRes(Callee(tr, "ClientStream.RecvCompress"), 0)(call.Call.Args[0]), st, f, d.typ+":looked-up-by-the-response-encoding", "the registered decompressor is not looked up by the response's grpc-encoding")
 				cleared := false
 				for _, s0 := range storesToField(f, fV0) {
-					if ConstNil(s0.Val) && s0.Block() == st.Block() {
+					if ConstNil(s0.Val) && together(s0, st) {
 						cleared = true
 					}
 				}
